@@ -376,6 +376,28 @@ fn case(g: &mut Gen, ctx: &mut Ctx) -> CaseResult {
         ctx.class("mutated");
     }
     ctx.classf(format!("type:{}", t.name));
+    // tagged types: often behind their registered tag; sometimes with one more tag outside it
+    // (self-described CBOR, encoded-CBOR, CWT, the same tag again) or behind another tag
+    if let Some(tag) = t.tag {
+        if g.ratio(1, 3) {
+            let mut layers: Vec<u64> = match g.weighted(&[6, 3, 1]) {
+                0 => vec![tag],
+                1 => vec![*g.pick(&[55799u64, 24, 61, 0]), tag],
+                _ => vec![tag ^ 1],
+            };
+            if layers.len() == 2 && g.ratio(1, 4) {
+                layers[0] = tag;
+            }
+            let mut x = vec![];
+            for n in &layers {
+                let widths: Vec<u8> = [0u8, 1, 2, 4, 8].iter().copied().filter(|w| *w >= crate::cbor::min_width(*n)).collect();
+                crate::cbor::head_w(&mut x, 6, *n, *g.pick(&widths));
+            }
+            x.extend_from_slice(&b);
+            ctx.classf(format!("tag-layers:{}", layers.len()));
+            return check_bytes(t, &x, g, ctx);
+        }
+    }
     check_bytes(t, &b, g, ctx)
 }
 
